@@ -91,3 +91,9 @@ META["C04"] = dict(
           "every implementation subset of the quick set; memory errors are made visible by ASan and guard pages, and nothing "
           "outside the composite region may change."),
     note="Trusted: ASan, mprotect guard pages. Cannot see an over-read that stays inside the same allocation.")
+META["C08"] = dict(
+    technique="property-based testing (rapidcheck): generated transformed fetches vs. an independent bit-exact reference of rounding.txt, under three implementation chains",
+    design_ref="§4 C08",
+    text=("Generated (transform, filter, kernel, repeat, source) combinations with sample positions steered onto pixel boundaries; "
+          "every fetched pixel compared bit for bit with an independent reference sampler."),
+    note="Trusted: the reference sampler in props/sampling.cpp. Found and fixed: S2 (and S9 via C02).")
